@@ -52,7 +52,7 @@ class Inode(object):
 class OFD(object):
     """Open file description."""
     __slots__ = ("inode", "readable", "writable", "append", "proc", "closed",
-                 "path")
+                 "path", "refs")
 
     def __init__(self, inode, readable, writable, append, proc, path):
         self.inode = inode
@@ -62,6 +62,7 @@ class OFD(object):
         self.proc = proc
         self.closed = False
         self.path = path
+        self.refs = 1    # descriptors referring to this description (more than one after a fork)
 
 
 class SimFile(object):
@@ -457,10 +458,32 @@ class SimOS(object):
         ofd = proc.fds.pop(fd, None)
         if ofd is None:
             raise _oserr(errno.EBADF)
+        self._drop_ref(ofd)
+
+    def _drop_ref(self, ofd, announce=True):
+        # flock(2): the lock goes with the open file description; it is released by an explicit
+        # LOCK_UN on any descriptor of it, or when the last such descriptor is closed
+        ofd.refs -= 1
+        if ofd.refs > 0:
+            return
         ofd.closed = True
         if ofd.inode.lock_ofd is ofd:
             ofd.inode.lock_ofd = None
-            self.kernel.post_event("unlocked", ofd.path)
+            if announce:
+                self.kernel.post_event("unlocked", ofd.path)
+
+    def fork_fds(self, parent, child):
+        """fork(): the child gets a copy of the parent's descriptor table; each entry refers to
+        the same open file description (so to the same flock)."""
+        for fd, ofd in parent.fds.items():
+            child.fds[fd] = ofd
+            ofd.refs += 1
+
+    def exit_proc(self, proc):
+        """Normal process exit: every descriptor is closed."""
+        for fd in list(proc.fds):
+            ofd = proc.fds.pop(fd)
+            self._drop_ref(ofd)
 
     def _builtin_open(self, path, mode="r", *args, **kwargs):
         if "b" not in mode:
@@ -510,9 +533,7 @@ class SimOS(object):
             f.closed = True
         proc.files = []
         for fd, ofd in list(proc.fds.items()):
-            ofd.closed = True
-            if ofd.inode.lock_ofd is ofd:
-                ofd.inode.lock_ofd = None
+            self._drop_ref(ofd, announce=False)
         proc.fds = {}
         proc.alive = False
 
